@@ -133,7 +133,7 @@ func runC15(r *ev.Run, thorough bool) {
 	if thorough {
 		maxValid, maxTrunc, depth = 40, 30, 2
 	}
-	r.Rule = fmt.Sprintf("per type: events = up to %d valid wires (bases Z, D and every structural deviation: list lengths 0..3/255..257, every registered key, text lengths) + up to %d failing truncations at field boundaries; ALL event sequences of length <= %d decoded into ONE receiver starting from {fresh, hand-dirtied with the long variant, hand-dirtied with bodies of other registered types, key field naming one type while holding a body of another}, then every valid wire decoded into that receiver and into a fresh one; oracle: equal results; states = distinct receiver contents reached, transitions = decode events applied; distinct = (type,start,event sequence,final)", maxValid, maxTrunc, depth)
+	r.Rule = fmt.Sprintf("per type: events = up to %d valid wires (bases Z, D and every structural deviation: list lengths 0..3/255..257, every registered key, text lengths) + up to %d failing truncations at field boundaries; ALL event sequences of length <= %d decoded into ONE receiver starting from {fresh, hand-dirtied with the long variant, hand-dirtied with bodies of other registered types, key field naming one type while holding a body of another}, then every valid wire decoded into that receiver and into a fresh one; plus EVERY canonical V1 wire decoded into each hand-dirtied receiver; oracle: equal results; states = distinct receiver contents reached, transitions = decode events applied; distinct = (type,start,event sequence,final)", maxValid, maxTrunc, depth)
 	parTypes(r, bind.Types, func(t *rm.Type, l *ev.Local) {
 		valid, trunc := c15Events(t, maxValid, maxTrunc)
 		events := append(append([][]byte{}, valid...), trunc...)
@@ -189,6 +189,33 @@ func runC15(r *ev.Run, thorough bool) {
 				return
 			}
 		}
+	})
+	// the value dimension: EVERY canonical V1 wire decoded into each hand-dirtied receiver and into a fresh one
+	parTypes(r, bind.Types, func(t *rm.Type, l *ev.Local) {
+		starts := []*rm.Value{valenum.Long(t), valenum.Distinct(t)}
+		if t.DynField() >= 0 {
+			tab := dynTable(t)
+			starts = append(starts, valenum.WithKey(t, tab.Order[0], "L"))
+			if len(tab.Order) > 1 {
+				mixed := valenum.WithKey(t, tab.Order[0], "D")
+				mixed.Fields[t.FieldIndex(t.Fields[t.DynField()].Key)] = rm.KeyValue(tab, tab.Order[len(tab.Order)-1])
+				starts = append(starts, mixed)
+			}
+		}
+		seeds(t, true, false, func(w []byte, c *valenum.Case) bool {
+			if len(w) > 4096 {
+				return true
+			}
+			for si, st := range starts {
+				l.Eval(ev.H(fmt.Sprint(t.QName(), "v1", si)+string(w)), true)
+				l.Traces++
+				if v := c15Run(t, st, nil, w, l); v != nil {
+					r.Violate(v)
+					return !r.TooMany()
+				}
+			}
+			return true
+		})
 	})
 	r.Sample("sample.NestedPacket: start=hand-dirtied(L), events [wire(D), trunc(L)@.SubPacketList], final wire(Z): dirty == fresh")
 	r.Set("bound", map[string]any{"max_valid_events": maxValid, "max_failing_events": maxTrunc, "history_depth": depth})
